@@ -233,6 +233,27 @@ func ifs(list []ast.Stmt) []*ast.IfStmt {
 	return out
 }
 
+// skeleton renders a function body with the recognised guard conditions replaced by <name>: everything else (the
+// statements around the guards, their order, what each branch does) must be exactly what the model transcribes.
+func skeleton(fd *ast.FuncDecl, holes []ast.Expr, names []string) string {
+	body := src(fd.Body)
+	for i, h := range holes {
+		if h == nil {
+			return "unrecognised"
+		}
+		hs := src(h)
+		if !strings.Contains(body, hs) {
+			return "unrecognised"
+		}
+		body = strings.Replace(body, hs, "<"+names[i]+">", 1)
+	}
+	return body
+}
+
+const pointSkeleton = `{ id, err := a.n.renderID(p.Name(), p.GroupID(), p.Tags()) if err != nil { return nil, err } l := a.determineLevel(p, a.currentLevel()) a.addEvent(p.Time(), l) if <pointSuppress> { return nil, nil } if <pointSend> { a.triggered(p.Time()) if <pointWithhold> { return nil, nil } duration := a.duration() event, err := a.n.event( id, p.Name(), p.GroupID(), p.Tags(), p.Fields(), l, p.Time(), duration, p.ToResult(), ) if err != nil { return nil, err } a.n.handleEvent(event) p = p.ShallowCopy() a.augmentTagsWithEventState(p, event.State) a.augmentFieldsWithEventState(p, event.State) return p, nil } return nil, nil }`
+
+const batchSkeleton = `{ begin := b.Begin() id, err := a.n.renderID(begin.Name(), begin.GroupID(), begin.Tags()) if err != nil { return nil, err } if len(b.Points()) == 0 { return nil, nil } lowestLevel := alert.Critical highestLevel := alert.OK var highestPoint edge.BatchPointMessage currentLevel := a.currentLevel() for _, bp := range b.Points() { l := a.determineLevel(bp, currentLevel) if <scanLower> { lowestLevel = l } if <scanHigher> { highestLevel = l highestPoint = bp } } l := lowestLevel if <batchUseHighest> { l = highestLevel } t := highestPoint.Time() if <batchUseBatchTime> { t = begin.Time() } t = t.UTC() a.addEvent(t, l) if <batchSilent> { return nil, nil } a.triggered(t) if <batchWithhold> { return nil, nil } duration := a.duration() event, err := a.n.event(id, begin.Name(), begin.GroupID(), begin.Tags(), highestPoint.Fields(), l, t, duration, b.ToResult()) if err != nil { return nil, err } a.n.handleEvent(event) if a.n.a.LevelTag != "" || a.n.a.LevelField != "" || a.n.a.IdTag != "" || a.n.a.IdField != "" || a.n.a.DurationField != "" || a.n.a.MessageField != "" { b = b.ShallowCopy() points := make([]edge.BatchPointMessage, len(b.Points())) for i, bp := range b.Points() { bp = bp.ShallowCopy() a.augmentTagsWithEventState(bp, event.State) a.augmentFieldsWithEventState(bp, event.State) points[i] = bp } b.SetPoints(points) newBegin := begin.ShallowCopy() a.augmentTagsWithEventState(newBegin, event.State) b.SetBegin(newBegin) } return b, nil }`
+
 func returnsNilNil(b *ast.BlockStmt) bool {
 	return len(b.List) == 1 && src(b.List[0]) == "return nil, nil"
 }
@@ -384,6 +405,23 @@ func main() {
 	}
 	w("")
 
+	// ---- the two level searches are transcribed by hand: their source must be exactly the transcribed one
+	const dlSrc = `{ n := a.n if higherLevel, found := a.findFirstMatchLevel(alert.Critical, currentLevel-1, p); found { return higherLevel } if rse := a.levelResets[currentLevel]; rse != nil { if pass, err := EvalPredicate(rse, n.lrScopePools[currentLevel], p); err != nil { n.diag.Error("error evaluating reset expression for current level", err, keyvalue.KV("level", currentLevel.String())) } else if !pass { return currentLevel } } if newLevel, found := a.findFirstMatchLevel(currentLevel, alert.OK, p); found { return newLevel } return alert.OK }`
+	const ffSrc = `{ n := a.n if stop < alert.OK { stop = alert.OK } for l := start; l > stop; l-- { se := a.levels[l] if se == nil { continue } if pass, err := EvalPredicate(se, n.scopePools[l], p); err != nil { n.diag.Error("error evaluating expression for level", err, keyvalue.KV("level", alert.Level(l).String())) continue } else if pass { return alert.Level(l), true } } return alert.OK, false }`
+	dl := funcDecl(alertF, "determineLevel", "*alertState")
+	ff := funcDecl(alertF, "findFirstMatchLevel", "*alertState")
+	w("/-- `determineLevel` and `findFirstMatchLevel` are, statement by statement, what Kap.Model.C01 transcribes. -/")
+	if dl != nil && ff != nil && src(dl.Body) == dlSrc && src(ff.Body) == ffSrc {
+		w("def levelSearchRecognised : Bool := true")
+	} else {
+		if os.Getenv("C01_PRINT_SKELETON") != "" && dl != nil && ff != nil {
+			fmt.Fprintln(os.Stderr, "determineLevel:", src(dl.Body))
+			fmt.Fprintln(os.Stderr, "findFirstMatchLevel:", src(ff.Body))
+		}
+		w("def levelSearchRecognised : Bool := unknownGuard \"determineLevel / findFirstMatchLevel: not the transcribed source\"")
+	}
+	w("")
+
 	// ---- guards
 	w("/-- The atoms the guards of alertState read. -/")
 	w("structure G where")
@@ -424,6 +462,15 @@ func main() {
 			}
 		}
 	}
+	if fd := funcDecl(alertF, "Point", "*alertState"); fd != nil {
+		if got := skeleton(fd, []ast.Expr{pSup, pSend, pWith}, []string{"pointSuppress", "pointSend", "pointWithhold"}); got != pointSkeleton {
+			if os.Getenv("C01_PRINT_SKELETON") != "" {
+				fmt.Fprintln(os.Stderr, "Point:", got)
+			}
+			pSup, pSend, pWith = nil, nil, nil
+			whyP = "alertState.Point: the statements around the guards are not the ones the model transcribes"
+		}
+	}
 	def("pointSuppress", "Point: `if <this> { return nil, nil }` right after addEvent", guard(pSup, whyP))
 	def("pointSend", "Point: `if <this> { a.triggered(p.Time()) … }`", guard(pSend, whyP))
 	def("pointWithhold", "Point: `if <this> { return nil, nil }` right after triggered (recovery suppression)", guard(pWith, whyP))
@@ -459,6 +506,17 @@ func main() {
 				}
 				break
 			}
+		}
+	}
+	if fd := funcDecl(alertF, "BufferedBatch", "*alertState"); fd != nil {
+		// scanLower/scanHigher first: their text (`l < lowestLevel`, …) occurs before the other guards
+		if got := skeleton(fd, []ast.Expr{sLow, sHigh, bNotAll, bTime, bSilent, bWith},
+			[]string{"scanLower", "scanHigher", "batchUseHighest", "batchUseBatchTime", "batchSilent", "batchWithhold"}); got != batchSkeleton {
+			if os.Getenv("C01_PRINT_SKELETON") != "" {
+				fmt.Fprintln(os.Stderr, "BufferedBatch:", got)
+			}
+			bEmpty, bNotAll, bTime, bSilent, bWith, sLow, sHigh = nil, nil, nil, nil, nil, nil, nil
+			whyB = "alertState.BufferedBatch: the statements around the guards are not the ones the model transcribes"
 		}
 	}
 	if bEmpty != nil {
